@@ -48,7 +48,7 @@ func (db *Builder) Add(b []byte) error {
 		return errors.New("DawgBuilder has already finished")
 	}
 
-	if db.lastWord != nil && bytes.Compare(db.lastWord, b) != -1 {
+	if db.d.numWords > 0 && bytes.Compare(db.lastWord, b) != -1 {
 		return errors.New("byte slices must be added in lexicographical order")
 	}
 	db.lastWord = b
